@@ -1,7 +1,8 @@
 (* C05 - property theorems only. Statements are about the Mech model of the interpreter's array
    index checks (Model.v); the proofs are in FlatIndex.v / Access.v / Machine.v.
    Vocabulary: [in_range dims idxs] = as many indices as dimensions, each 0 <= i_k < d_k;
-   [row_major dims idxs] = sum_k i_k * prod_{j>k} d_j; [int_range i] = i fits a C++ int. *)
+   [row_major dims idxs] = sum_k i_k * prod_{j>k} d_j; [int_range i] = i fits a C++ int.
+   Mirrors /repo at the fix commits ff8053c (index_to_int) and 2bd3a28 (pointer offset guard). *)
 From Coq Require Import List ZArith Bool Lia.
 Import ListNotations.
 From Cb Require Import C05.Model C05.FlatIndex C05.Access C05.Machine C05.Lemmas.
@@ -28,44 +29,39 @@ Theorem flat_index_surjective : forall dims k, positive_dims dims -> 0 <= k < si
 Proof. exact flat_index_surjective_l. Qed.
 Print Assumptions flat_index_surjective.
 
-(* ---- every access site (local/global/parameter array, struct member array; read, write):
-        with indices that fit an int, the access is accepted exactly when every index is inside
-        its dimension, and then it addresses the row-major cell ---- *)
+(* ---- every access site (local/global/parameter array, struct member array; read, write), every
+        integer index: the access is accepted exactly when every index is inside its dimension,
+        and then it addresses the row-major cell. [dims_fit]: the declared extents are C++ ints. ---- *)
 Theorem access_accepted_iff_every_index_in_range : forall ak m dims idxs,
-  supported ak dims -> Forall int_range idxs ->
+  supported ak dims -> dims_fit dims ->
   ((exists k, resolve ak m dims (size dims) idxs = inl k) <-> in_range dims idxs) /\
   (forall k, resolve ak m dims (size dims) idxs = inl k -> k = row_major dims idxs /\ 0 <= k < size dims).
 Proof. exact access_accepted_iff_every_index_in_range_l. Qed.
 Print Assumptions access_accepted_iff_every_index_in_range.
 
-(* the sites that compare in 64 bits need no hypothesis on the indices at all *)
-Theorem exact_sites_hold_for_all_indices : forall ak m dims idxs k,
-  supported ak dims -> narrows ak (rank1 dims) m = false ->
-  (resolve ak m dims (size dims) idxs = inl k <-> in_range dims idxs /\ k = row_major dims idxs).
-Proof. exact resolve_exact_iff_l. Qed.
-Print Assumptions exact_sites_hold_for_all_indices.
-
-Theorem access_cells_are_a_bijection : forall ak m dims, supported ak dims ->
-  (forall a b k, Forall int_range a -> Forall int_range b ->
-     resolve ak m dims (size dims) a = inl k -> resolve ak m dims (size dims) b = inl k -> a = b) /\
-  (positive_dims dims -> Forall int_range dims -> forall k, 0 <= k < size dims ->
-     exists idxs, Forall int_range idxs /\ in_range dims idxs /\ resolve ak m dims (size dims) idxs = inl k).
+Theorem access_cells_are_a_bijection : forall ak m dims, supported ak dims -> dims_fit dims ->
+  (forall a b k, resolve ak m dims (size dims) a = inl k -> resolve ak m dims (size dims) b = inl k -> a = b) /\
+  (positive_dims dims -> forall k, 0 <= k < size dims ->
+     exists idxs, in_range dims idxs /\ resolve ak m dims (size dims) idxs = inl k).
 Proof. exact access_cells_are_a_bijection_l. Qed.
 Print Assumptions access_cells_are_a_bijection.
 
-(* the int conversion is why the hypothesis is needed: m[4294967297][1] = ... on int[2][3] writes
-   m[1][1]; a[4294967297] = ... on int[4] writes a[1] (known finding C05-index-narrowed-to-int) *)
-Theorem narrowed_index_accepted_refuted :
-  exists ak m dims idxs k, supported ak dims /\ ~ in_range dims idxs /\
-                           resolve ak m dims (size dims) idxs = inl k.
-Proof. exact narrowed_index_accepted_refuted_l. Qed.
-Print Assumptions narrowed_index_accepted_refuted.
+(* an index that does not fit an int is rejected at every site (was: truncated, finding
+   C05-index-narrowed-to-int, fixed by ff8053c); the former witnesses are rejected *)
+Theorem index_outside_int_rejected_at_every_site : forall ak m dims idxs,
+  supported ak dims -> dims_fit dims -> ~ Forall int_range idxs ->
+  exists e, resolve ak m dims (size dims) idxs = inr e.
+Proof. exact resolve_rejects_non_int_l. Qed.
+Print Assumptions index_outside_int_rejected_at_every_site.
 
-Theorem narrowed_index_1d_write_accepted_refuted :
-  ~ in_range [4] [4294967297] /\ resolve ANamed Wr [4] 4 [4294967297] = inl 1 /\
-  resolve ANamed Rd [4] 4 [4294967297] = inr EBounds.
-Proof. exact narrowed_index_1d_write_accepted_refuted_l. Qed.
-Print Assumptions narrowed_index_1d_write_accepted_refuted.
+Theorem former_narrowing_witnesses_rejected :
+  resolve ANamed Wr [2; 3] 6 [4294967297; 1] = inr EBounds /\ resolve ANamed Rd [2; 3] 6 [1; -4294967295] = inr EBounds /\
+  resolve ANamed Wr [4] 4 [4294967297] = inr EBounds /\ resolve AMember Wr [4] 4 [4294967297] = inr EBounds /\
+  resolve AMember Rd [4] 4 [4294967297] = inr EOther /\ resolve AMember Wr [2; 3] 6 [4294967297; 1] = inr EBounds /\
+  snd (step ANamed [4] 4096 (mkst [1; 2; 3; 4] (Some 0)) (OPtrWrite 4294967297 9)) = RErr EBounds /\
+  snd (step ANamed [2; 3] 4096 (mkst [1; 2; 3; 4; 5; 6] None) (OAddr [4294967297; 1])) = RErr EBounds.
+Proof. exact former_narrowing_witnesses_rejected_l. Qed.
+Print Assumptions former_narrowing_witnesses_rejected.
 
 (* struct members of rank >= 3: every read is rejected, in range or not, while the write is accepted
    (known finding C05-struct-member-rank3-rejected) *)
@@ -82,7 +78,7 @@ Proof. exact step_err_unchanged. Qed.
 Print Assumptions reject_changes_nothing.
 
 Theorem write_hits_exactly_one_cell : forall ak dims base s idxs v s',
-  supported ak dims -> wf dims s -> Forall int_range idxs ->
+  supported ak dims -> dims_fit dims -> wf dims s ->
   step ak dims base s (OWrite idxs v) = (s', RUnit) ->
   in_range dims idxs /\ ptr s' = ptr s /\
   forall t, in_range dims t ->
@@ -102,7 +98,8 @@ Proof. exact deref_ok. Qed.
 Print Assumptions valid_pointer_always_dereferences.
 
 (* ---- refinement: for every sequence of accesses (reads, writes, &a[i], p+-k, p++/p--, p[k],
-        *p, *(p+k)) whose integers stay in the stated ranges, the machine yields the results of
+        *p, *(p+k)) with arbitrary integer indices and offsets ([op_ok]: p[k] on rank-1 arrays
+        only, see pointer_index_into_multidim_rejected_refuted), the machine yields the results of
         the shadow array keyed by index tuples, rejects exactly what it rejects, and ends in a
         related state - without `checked` (run stops at the first rejection) and with it ---- *)
 Theorem machine_refines_shadow_array : forall ak dims base ops s ss,
@@ -135,20 +132,20 @@ Theorem rejection_is_classified_out_of_bounds : forall ak m dims stor idxs e b,
 Proof. exact rejection_is_classified_out_of_bounds_l. Qed.
 Print Assumptions rejection_is_classified_out_of_bounds.
 
-(* ---- pointer arithmetic ---- *)
+(* ---- pointer arithmetic: for every offset ---- *)
 Theorem pointer_arithmetic_accepted_iff_inside : forall base n e (plus : bool) k,
-  base_ok base n -> 0 <= e < n -> n < two31 -> - two60 <= k <= two60 ->
+  base_ok base n -> 0 <= e < n -> n < two31 ->
   let t := if plus then e + k else e - k in
   ptr_arith base n e plus k = if (0 <=? t) && (t <? n) then Some t else None.
 Proof. exact ptr_arith_ok_l. Qed.
 Print Assumptions pointer_arithmetic_accepted_iff_inside.
 
-(* offset * 8 wraps modulo 2^64: p + (2^61 + 1) is accepted as p + 1
-   (known finding C05-pointer-offset-wraps) *)
-Theorem pointer_arithmetic_wraps_refuted : forall base n e, base_ok base n -> 0 <= e -> e + 1 < n ->
-  exists k, ~ (0 <= e + k < n) /\ ptr_arith base n e true k = Some (e + 1).
-Proof. exact pointer_arithmetic_wraps_refuted_l. Qed.
-Print Assumptions pointer_arithmetic_wraps_refuted.
+(* was: offset * 8 wrapped modulo 2^64 and p + (2^61 + 1) was accepted as p + 1
+   (finding C05-pointer-offset-wraps, fixed by 2bd3a28) *)
+Theorem pointer_huge_offset_rejected : forall base n e plus k,
+  max_ptr_offset < k \/ k < - max_ptr_offset -> ptr_arith base n e plus k = None.
+Proof. exact pointer_huge_offset_rejected_l. Qed.
+Print Assumptions pointer_huge_offset_rejected.
 
 (* p[k] through a pointer into an N-D array is rejected even when it stays inside, although *p
    on the same pointer succeeds (known finding C05-pointer-index-into-multidim-rejected) *)
@@ -173,7 +170,7 @@ Proof.
   split; [|split].
   - split; [exact I|]. split; [intros d [<-|[<-|[]]]; lia|]. split; [reflexivity|]. split; [lia|unfold two64; cbn; lia].
   - split; reflexivity.
-  - repeat constructor; unfold int_range, two31, two60; cbn; lia.
+  - repeat constructor.
 Qed.
 
 Example run_example :
